@@ -307,12 +307,11 @@ macro_rules! iter_step {
     (@first $first:ident $(, $rest:ident)*) => { $first };
 }
 
-iter_step!(iter_q_ab_chain_id, RAB, t1 = [true, true] x 1, t2 = [false, true] x 1,
-    views = (entity::Identifier), filter = filter::None, matches = |_b| true,
-    bind = (id), checks = [(id id)]);
-iter_step!(iter_t_ab_chain_filter, RAB, t1 = [true, false] x 2, t2 = [false, true] x 1,
-    views = (entity::Identifier), filter = Has<B>, matches = |b| b[1],
-    bind = (id), checks = [(id id)]);
+// Measured: even with Identifier-only views, two archetypes of one row each and concrete
+// identifiers, `result::Iter` over a table does not fit in 20 GB (its state is read back from the
+// table on every `next`, so every step is symbolic for the executor).  No instance is kept; the
+// three per-archetype steps it performs (filter, view+reshape, iterate) are checked by `filt_` and
+// `view_` below, and its chaining logic is outside the claim.
 
 // ------------------------------------------------------------------------------------------
 // Entry::query for a symbolic row of a concrete archetype
@@ -457,4 +456,133 @@ view_step!(view_t_azd_zst, RAZD, [true, true, false] x 2,
 view_step!(view_t_ab_empty_views, RAB, [true, false] x 2,
     views = (), bind = (), checks = []);
 view_step!(view_t_ab_n0, RAB, [true, true] x 0,
+    views = (entity::Identifier, &mut A, &mut B), bind = (id, a, bb), checks = [(id id), (req 0 a), (req 1 bb)]);
+
+// ------------------------------------------------------------------------------------------
+// C09: per-archetype parallel results, driven without threads through rayon's own plumbing:
+// `with_producer(callback)`, the callback splits the producer at *symbolic* indices (two levels)
+// and iterates the pieces.  Rayon's splitting policy is over-approximated by "any split points".
+// ------------------------------------------------------------------------------------------
+
+use crate::{
+    query::{
+        result::ParResults,
+        view::ParViews,
+    },
+    registry::ContainsParQuery,
+};
+use rayon::iter::{
+    plumbing::{
+        Producer,
+        ProducerCallback,
+    },
+    IndexedParallelIterator,
+    ParallelIterator,
+};
+
+fn par_items<'a, R, V, F, I>(arch: &'a mut Archetype<R>) -> <V::ParResults as ParResults>::Iterator
+where
+    V: ParViews<'a>,
+    R: ContainsParQuery<'a, F, V, I>,
+{
+    // SAFETY: callers only instantiate view lists whose required components the archetype has.
+    unsafe { arch.par_view::<V, _, _, _>() }
+        .reshape()
+        .into_parallel_iterator()
+}
+
+struct SplitTwice<F> {
+    first: usize,
+    second: usize,
+    check: F,
+}
+
+impl<T, F> ProducerCallback<T> for SplitTwice<F>
+where
+    F: FnMut(usize, T),
+{
+    type Output = usize;
+
+    fn callback<P>(mut self, producer: P) -> usize
+    where
+        P: Producer<Item = T>,
+    {
+        // [0, second) [second, first) [first, len)
+        let (left, right) = producer.split_at(self.first);
+        let (ll, lr) = left.split_at(self.second);
+        let mut k = 0;
+        for item in ll.into_iter() {
+            (self.check)(k, item);
+            k += 1;
+        }
+        vassert!(k == self.second, "left-left piece has exactly `second` items");
+        for item in lr.into_iter() {
+            (self.check)(k, item);
+            k += 1;
+        }
+        vassert!(k == self.first, "left piece has exactly `first` items");
+        for item in right.into_iter() {
+            (self.check)(k, item);
+            k += 1;
+        }
+        k
+    }
+}
+
+macro_rules! par_step {
+    ($name:ident, $R:ty, [$($b:expr),*] x $N:expr,
+     views = ($($V:ty),*), bind = ($($bind:ident),*), checks = [$(($kind:ident $($arg:tt)*)),*]) => {
+        #[kani::proof]
+        #[kani::unwind(8)]
+        pub fn $name() {
+            const N: usize = $N;
+            let bits = [$($b),*];
+            let ids = {
+                let mut ids = [entity::Identifier::new(0, 0); N];
+                let mut r = 0;
+                while r < N {
+                    ids[r] = entity::Identifier::new(kani::any(), kani::any());
+                    r += 1;
+                }
+                ids
+            };
+            let mut arch = any_archetype::<$R>(ident::<$R>(bits_to_bytes(&bits)), &bits, N, N + 1, &ids);
+            let cols = arch.verif_raw().2.clone();
+            let first: usize = kani::any();
+            let second: usize = kani::any();
+            kani::assume(first <= N && second <= first);
+            let it = par_items::<$R, crate::query::Views!($($V),*), filter::None, _>(&mut arch);
+            vassert!(IndexedParallelIterator::len(&it) == N, "parallel results have one item per row");
+            vassert!(it.opt_len() == Some(N), "opt_len agrees with len");
+            let mut visited = [false; N];
+            let total = it.with_producer(SplitTwice {
+                first,
+                second,
+                check: |k: usize, item: crate::query::Views!($($V),*)| {
+                    vassert!(k < N, "no item beyond the archetype's rows");
+                    vassert!(!visited[k], "each row visited once");
+                    visited[k] = true;
+                    let crate::query::result!($($bind),*) = item;
+                    $( vcheck!($kind $($arg)*, $R, &bits, &cols, k, ids[k]); )*
+                },
+            });
+            vassert!(total == N, "the pieces together visit every row exactly once, in sequential order");
+            kani::cover!(second > 0 && second < first && first < N || N < 3, "three non-empty pieces");
+            kani::cover!(first == 0, "empty left piece");
+            core::mem::forget(arch);
+        }
+    };
+}
+
+par_step!(par_q_ab_id_muta_optb, RAB, [true, false] x 3,
+    views = (entity::Identifier, &mut A, Option<&mut B>), bind = (id, a, ob), checks = [(id id), (req 0 a), (opt 1 ob)]);
+par_step!(par_q_dbwa_gap, RDBWA, [true, false, true, true] x 2,
+    views = (entity::Identifier, Option<&B>, &mut W, Option<&mut A>), bind = (id, ob, w, oa), checks = [(id id), (opt 1 ob), (req 2 w), (opt 3 oa)]);
+par_step!(par_t_dbwa_rev_order, RDBWA, [true, true, true, true] x 3,
+    views = (&A, Option<&mut W>, entity::Identifier, &mut B, Option<&D>), bind = (a, ow, id, bb, od), checks = [(req 3 a), (opt 2 ow), (id id), (req 1 bb), (opt 0 od)]);
+par_step!(par_t_dbwa_absent_mut_opts, RDBWA, [false, true, false, false] x 3,
+    views = (Option<&mut D>, entity::Identifier, Option<&mut A>, Option<&W>, &B), bind = (od, id, oa, ow, bb), checks = [(opt 0 od), (id id), (opt 3 oa), (opt 2 ow), (req 1 bb)]);
+par_step!(par_t_azd_zst_n1, RAZD, [true, true, false] x 1,
+    views = (entity::Identifier, &Z, Option<&mut A>), bind = (id, z, oa), checks = [(id id), (req 1 z), (opt 0 oa)]);
+par_step!(par_t_ab_n0, RAB, [true, true] x 0,
     views = (entity::Identifier, &mut A, &mut B), bind = (id, a, bb), checks = [(id id), (req 0 a), (req 1 bb)]);
